@@ -485,12 +485,16 @@ def _decomposition_conventions(ctx, f):
                 vecname = tgt.elts[1].id if isinstance(tgt, ast.Tuple) and len(tgt.elts) == 2 and isinstance(tgt.elts[1], ast.Name) else None
                 for nm in eig_v | svd_u:
                     if mentions_name(second, nm):
-                        ok = second == ("T", ("n", nm))
+                        SLA = ("slice", ("c", None), ("c", None), ("c", None))
+                        # U.T, or U[:, selection].T (a column selection keeps the vectors as columns)
+                        ok = second == ("T", ("n", nm)) or (second[0] == "T" and second[1][0] == "sub" and second[1][1] == ("n", nm) and second[1][2][0] == "tuple"
+                                                            and len(second[1][2]) == 3 and second[1][2][1] == SLA)
                         ctx.ob("R-SHAPE", f, f"vectors of {nm} are its columns (iterate {nm}.T)", ok,
                                "eigen/singular vectors are taken column by column" if ok else f"iterating {show(second)} walks rows of a column-vector matrix", n)
                 for nm in svd_vh:
                     if mentions_name(second, nm):
-                        ok = second == ("n", nm)
+                        # vh, or vh[selection] (a row selection keeps the vectors as rows)
+                        ok = second == ("n", nm) or (second[0] == "sub" and second[1] == ("n", nm) and second[2][0] != "tuple")
                         ctx.ob("R-SHAPE", f, f"right singular vectors are rows of {nm}", ok,
                                "rows of vh" if ok else f"iterating {show(second)}", n)
                         # must be conjugated: vh rows are conj of v columns
